@@ -11,7 +11,7 @@
    [overwrite d new] is [new] followed by the untouched remainder of [d], so the equations on writers
    include the frame (see C18_overwrite_frame).  [ct] ranges over Narrow (char) and Wide (wchar_t):
    the wcs*/wmem* front ends instantiate the same templates. *)
-From Tetl Require Import Lib.Base C18.Model C18.Spec C18.ProofsCtype C18.ProofsStr C18.ProofsWrite C18.ProofsMove.
+From Tetl Require Import Lib.Base C18.Model C18.Spec C18.ProofsCtype C18.ProofsStr C18.ProofsWrite C18.ProofsMove C18.ProofsExt.
 Local Open Scope Z_scope.
 
 (** * <cctype> / <cwctype> *)
@@ -183,6 +183,42 @@ Theorem C18_memmove_elements : forall m d s n, (d + n <= length m)%nat -> (s + n
 Proof. exact memmove_s_elements. Qed.
 Print Assumptions C18_memmove_elements.
 
+(* memmove between two DIFFERENT allocations: the pointer comparison `ps < pd` is then unspecified ([below] is
+   whichever way it comes out); both loops store the n source elements and leave the rest of the destination *)
+Theorem C18_memmove_two_allocations : forall below n d s, (n <= length s)%nat -> (n <= length d)%nat ->
+  memmove2_m below d s n = Ok (memcpy_s d s n).
+Proof. exact memmove2_ok. Qed.
+Print Assumptions C18_memmove_two_allocations.
+
+(* counts larger than the arrays (up to SIZE_MAX; legal for strncmp/strncat on terminated strings and for memchr when
+   a match exists): neither the model nor the specification depends on the count once it exceeds the array
+   length(s).  Together with C18_strncmp / C18_strncat / C18_memchr (which hold for every count) this covers
+   arbitrarily large counts; the differential run evaluates model and spec at k = length + 1 for them. *)
+Theorem C18_counts_beyond_arrays : forall n k,
+  (forall ct A B, (length A < n)%nat -> (length A < k)%nat -> (length B < n)%nat -> (length B < k)%nat ->
+     strncmp_m ct A B n = strncmp_m ct A B k /\ strncmp_s A B n = strncmp_s A B k /\
+     array_ok n A = array_ok k A /\ array_ok n B = array_ok k B) /\
+  (forall d B, (length B < n)%nat -> (length B < k)%nat ->
+     strncat_m d B n = strncat_m d B k /\ upto_nul_excl n B = upto_nul_excl k B /\ array_ok n B = array_ok k B) /\
+  (forall ct A ch, (length A < n)%nat -> (length A < k)%nat ->
+     memchr_m ct A ch n = memchr_m ct A ch k /\ memchr_s A (conv_char (is_wide ct) ch) n = memchr_s A (conv_char (is_wide ct) ch) k).
+Proof. exact counts_beyond_arrays. Qed.
+Print Assumptions C18_counts_beyond_arrays.
+
+(* the null-pointer entry checks of the front ends ([None] = nullptr): strcpy/strncpy/wcscpy/wcsncpy/strchr/memmove
+   answer with a contract violation, detail::strrchr with a null result; otherwise the functions above run *)
+Theorem C18_null_arguments :
+  (forall s, strcpy_front_m None s = Contract) /\ (forall d, strcpy_front_m (Some d) None = Contract) /\
+  (forall d s, strcpy_front_m (Some d) (Some s) = strcpy_m d s) /\
+  (forall s n, strncpy_front_m None s n = Contract) /\ (forall d n, strncpy_front_m (Some d) None n = Contract) /\
+  (forall d s n, strncpy_front_m (Some d) (Some s) n = strncpy_m d s n) /\
+  (forall ch, strchr_front_m None ch = Contract) /\ (forall s ch, strchr_front_m (Some s) ch = strchr_m Narrow s ch) /\
+  (forall ct ch, strrchr_front_m ct None ch = Ok None) /\ (forall ct s ch, strrchr_front_m ct (Some s) ch = strrchr_m ct s ch) /\
+  (forall b s n, memmove_front_m b None s n = Contract) /\ (forall b d n, memmove_front_m b (Some d) None n = Contract) /\
+  (forall b d s n, memmove_front_m b (Some d) (Some s) n = memmove2_m b d s n).
+Proof. exact null_arguments. Qed.
+Print Assumptions C18_null_arguments.
+
 (** * <cstdlib> div family, labs/llabs (any integer type t of the code: int, long, long long, intmax_t) *)
 Theorem C18_div : forall t x y, in_range t x -> in_range t y -> y <> 0 -> in_range t (fst (div_s x y)) ->
   div_m t x y = Some (div_s x y).
@@ -212,7 +248,9 @@ Example C18_nonvacuous :
   memmove_m [1; 2; 3; 4; 5; 6] 1 0 4 = Ok [1; 1; 2; 3; 4; 6] /\
   strncat_m [97; 0; 9; 9] [98; 99] 2 = Ok [97; 98; 99; 0] /\
   isalpha_m 97 = 1 /\ tolower_m 65 = Some 97 /\
-  in_range i32 7 /\ div_m i32 7 (-2) = Some (-3, 1) /\ abs_m i64 (-5) = Some 5.
+  in_range i32 7 /\ div_m i32 7 (-2) = Some (-3, 1) /\ abs_m i64 (-5) = Some 5 /\
+  memmove2_m true [9; 9; 9] [1; 2] 2 = Ok [1; 2; 9] /\ memmove2_m false [9; 9; 9] [1; 2] 2 = Ok [1; 2; 9] /\
+  strncmp_m Narrow [97; 0] [97; 98; 0] 1000 = Ok (-1) /\ strncat_m [97; 0; 9] [98; 0] 1000 = Ok [97; 98; 0].
 Proof.
   repeat split; try (vm_compute; congruence); try reflexivity.
   - intros [H|[H|[H|[H|[]]]]]; discriminate.
